@@ -42,7 +42,7 @@ def gen(rng, tier, index):
     mode = rng.choice(["short", "short", "mixed", "long_fixed", "long_fixed", "long_random"])
     if mode == "short":
         n = rng.randint(1, 6)
-        specs = [p1_gen.readout_spec(rng, seq) for seq in range(n)]
+        specs = [p1_gen.readout_spec(rng, seq if rng.random() < 0.7 else None) for seq in range(n)]
     elif mode == "mixed":
         n = rng.randint(5, 60)
         specs = [p1_gen.readout_spec(rng, seq) for seq in range(n)]
